@@ -2,6 +2,9 @@ import Amgcl.Proofs.SolverCG
 import Amgcl.Proofs.SolverBiCGStab
 import Amgcl.Proofs.SolverRichardson
 import Amgcl.Model.SolverPreonly
+import Amgcl.Proofs.SolverGMRES
+import Amgcl.Proofs.SolverFGMRES
+import Amgcl.Proofs.SolverLGMRES
 import Mathlib.Algebra.Order.Field.Rat
 /-!
 # C15 — solver objects are reusable; calls do not leak state  (CG, BiCGStab, Richardson, preonly)
@@ -204,5 +207,88 @@ example : (CG.run ({ maxiter := 3, tol := 1/2, abstol := 0, nsSearch := false } 
     (CG.Work.fresh 2) #[2, -3] #[1, 0]).obs = (.ok (0, 0), #[1, 0]) := by decide +kernel
 
 end nonvacuous
+
+/-! ## Second package: GMRES, FGMRES, LGMRES, IDR(s), BiCGStab(L) -/
+section second
+variable {K : Type} [Field K] [DecidableEq K] [LT K] [DecidableLT K]
+
+/-! ### zero right-hand side (`‖f‖ < eps(1)`, `ns_search` off): `x = 0`, zero iterations, the work arrays untouched -/
+
+theorem gmres_zero_rhs (prm : GMRES.Params K) (ip : Vec K → Vec K → K) (sqrt : K → K) (eps : K) (A : CRS K)
+    (P : Vec K → Vec K) (ws : GMRES.Work K) (f x0 : Vec K) (hf : nrmA ip sqrt f < eps)
+    (hns : prm.nsSearch = false) :
+    GMRES.run prm ip sqrt eps A P ws f x0 = (.ok (0, nrmA ip sqrt f), vclear x0.size, ws) :=
+  GMRES.run_trivial _ _ _ _ _ _ _ _ _ _ ((prologueA_trivial _ _ _ _ _ _).mpr ⟨hf, hns, rfl⟩)
+
+theorem fgmres_zero_rhs (prm : FGMRES.Params K) (ip : Vec K → Vec K → K) (sqrt : K → K) (eps : K) (A : CRS K)
+    (P : Vec K → Vec K) (ws : FGMRES.Work K) (f x0 : Vec K) (hf : nrmA ip sqrt f < eps)
+    (hns : prm.nsSearch = false) :
+    FGMRES.run prm ip sqrt eps A P ws f x0 = (.ok (0, nrmA ip sqrt f), vclear x0.size, ws) :=
+  FGMRES.run_trivial _ _ _ _ _ _ _ _ _ _ ((prologueA_trivial _ _ _ _ _ _).mpr ⟨hf, hns, rfl⟩)
+
+/-- (with `always_reset` the call has nevertheless dropped the augmentation vectors: `outer_v.clear()` is the first
+statement of `operator()`) -/
+theorem lgmres_zero_rhs (prm : LGMRES.Params K) (ip : Vec K → Vec K → K) (sqrt : K → K) (eps : K) (A : CRS K)
+    (P : Vec K → Vec K) (ws : LGMRES.Work K) (f x0 : Vec K) (hf : nrmA ip sqrt f < eps)
+    (hns : prm.nsSearch = false) :
+    LGMRES.run prm ip sqrt eps A P ws f x0 = (.ok (0, nrmA ip sqrt f), vclear x0.size, LGMRES.reset prm ws) :=
+  LGMRES.run_trivial _ _ _ _ _ _ _ _ _ _ ((prologueA_trivial _ _ _ _ _ _).mpr ⟨hf, hns, rfl⟩)
+
+/-! ### an initial guess that already satisfies the tolerance (`norm_r < eps`) is returned unchanged in zero
+iterations with its true residual — the very array `x₀`, no `x₀ + P(0)` is formed -/
+
+theorem gmres_converged_guess_unchanged (prm : GMRES.Params K) (ip : Vec K → Vec K → K) (sqrt : K → K) (eps : K)
+    (A : CRS K) (P : Vec K → Vec K) (ws : GMRES.Work K) (f x0 : Vec K) (nf : K)
+    (hp : prologueA prm.nsSearch ip sqrt eps f = .go nf)
+    (hconv : nrmA ip sqrt (BiCGStab.Rf prm.pside P f A x0) < GMRES.epsTol prm nf ∨ prm.maxiter = 0) :
+    (GMRES.run prm ip sqrt eps A P ws f x0).obs
+      = (.ok (0, nrmA ip sqrt (BiCGStab.Rf prm.pside P f A x0) / nf), x0) := by
+  rw [GMRES.run_go _ _ _ _ _ _ _ _ _ nf hp]
+  have hn : (GMRES.init prm ip sqrt A P ws f x0).normR = nrmA ip sqrt (BiCGStab.Rf prm.pside P f A x0) := by
+    unfold GMRES.init; rw [GMRES.head_normR]
+  have hstop : GMRES.stop prm.maxiter (GMRES.epsTol prm nf) (GMRES.init prm ip sqrt A P ws f x0) = true := by
+    simp only [GMRES.stop, Bool.or_eq_true, decide_eq_true_eq, hn, GMRES.init_iter]
+    rcases hconv with h | h
+    · exact Or.inl h
+    · exact Or.inr (by omega)
+  rw [GMRES.final_of_stop prm ip sqrt A P ws f x0 nf hstop]
+  simp only [Run.obs, GMRES.init_iter, GMRES.init_x, hn]
+
+theorem fgmres_converged_guess_unchanged (prm : FGMRES.Params K) (ip : Vec K → Vec K → K) (sqrt : K → K) (eps : K)
+    (A : CRS K) (P : Vec K → Vec K) (ws : FGMRES.Work K) (f x0 : Vec K) (nf : K)
+    (hp : prologueA prm.nsSearch ip sqrt eps f = .go nf)
+    (hconv : nrmA ip sqrt (residual f A x0) < FGMRES.epsTol prm nf ∨ prm.maxiter = 0) :
+    (FGMRES.run prm ip sqrt eps A P ws f x0).obs = (.ok (0, nrmA ip sqrt (residual f A x0) / nf), x0) := by
+  rw [FGMRES.run_go _ _ _ _ _ _ _ _ _ nf hp]
+  have hn : (FGMRES.init ip sqrt A ws f x0).normR = nrmA ip sqrt (residual f A x0) := rfl
+  have hstop : FGMRES.stop prm.maxiter (FGMRES.epsTol prm nf) (FGMRES.init ip sqrt A ws f x0) = true := by
+    simp only [FGMRES.stop, Bool.or_eq_true, decide_eq_true_eq, hn, FGMRES.init_iter]
+    rcases hconv with h | h
+    · exact Or.inl h
+    · exact Or.inr (by omega)
+  rw [FGMRES.final_of_stop prm ip sqrt A P ws f x0 nf hstop]
+  simp only [Run.obs, FGMRES.init_iter, FGMRES.init_x, hn]
+
+/-- (also for an object that carries augmentation vectors of earlier calls) -/
+theorem lgmres_converged_guess_unchanged (prm : LGMRES.Params K) (ip : Vec K → Vec K → K) (sqrt : K → K) (eps : K)
+    (A : CRS K) (P : Vec K → Vec K) (ws : LGMRES.Work K) (f x0 : Vec K) (nf : K)
+    (hp : prologueA prm.nsSearch ip sqrt eps f = .go nf)
+    (hconv : nrmA ip sqrt (BiCGStab.Rf prm.pside P f A x0) < LGMRES.epsTol prm nf ∨ prm.maxiter = 0) :
+    (LGMRES.run prm ip sqrt eps A P ws f x0).obs
+      = (.ok (0, nrmA ip sqrt (BiCGStab.Rf prm.pside P f A x0) / nf), x0) := by
+  rw [LGMRES.run_go _ _ _ _ _ _ _ _ _ nf hp]
+  have hn : (LGMRES.init prm ip sqrt A P (LGMRES.reset prm ws) f x0).normR
+      = nrmA ip sqrt (BiCGStab.Rf prm.pside P f A x0) := by
+    unfold LGMRES.init; rw [LGMRES.head_normR]
+  have hstop : LGMRES.stop prm.maxiter (LGMRES.epsTol prm nf)
+      (LGMRES.init prm ip sqrt A P (LGMRES.reset prm ws) f x0) = true := by
+    simp only [LGMRES.stop, Bool.or_eq_true, decide_eq_true_eq, hn, LGMRES.init_iter]
+    rcases hconv with h | h
+    · exact Or.inl h
+    · exact Or.inr (by omega)
+  rw [LGMRES.final_of_stop prm ip sqrt A P _ f x0 nf hstop]
+  simp only [Run.obs, LGMRES.init_iter, LGMRES.init_x, hn]
+
+end second
 
 end Amgcl.C15
